@@ -22,7 +22,7 @@ import random
 import datetime
 import time
 
-from urllib.parse import urlsplit, quote, quote_plus, unquote, unquote_plus
+from urllib.parse import urlsplit, urljoin, quote, quote_plus, unquote, unquote_plus
 
 try:
     import simplejson as json
@@ -961,6 +961,16 @@ class Patron(object):
                 location = sep.join([path, query])
             else:
                 location = path
+            # a relative reference is resolved against the url of the request
+            # just answered RFC 7231 7.1.2, RFC 3986 5.2
+            host = self.requester.hostname
+            if host.find(u':') >= 0:  # ipv6 address
+                host = u'[' + host + u']'
+            base = u"{0}://{1}:{2}{3}".format(self.requester.scheme,
+                                              host,
+                                              self.requester.port,
+                                              self.requester.path)
+            location = urljoin(base, location)
             splits = urlsplit(location)
             hostname = splits.hostname
             port = splits.port
